@@ -415,17 +415,40 @@ pub fn run_job(w: &World, j: &VJob) -> Option<(String, Value)> {
             for m in &j.muts {
                 apply_w3c(&mut p, &mut provs, m);
             }
-            // attribute names that collide under normalisation make the library's result depend on
-            // HashMap order: excluded by the precondition `names_distinct_cv` (DESIGN.md 3.2)
+            // attribute names that collide under normalisation: which of them the library looks at first
+            // depends on HashMap order. Since the subject check covers every entry the verdict no longer
+            // depends on that order; to see an order-dependent verdict if one comes back, such a
+            // presentation is parsed afresh (new hash order) and verified several times, and the most
+            // permissive verdict counts
+            // (a collision between a predicate marker - a boolean entry - and a value entry stays excluded:
+            // there the library's answer does depend on which of the two it meets first, in a corner the
+            // property says nothing about; precondition `names_distinct_cv` of DESIGN.md 3.2, now narrowed)
+            let mut collide = false;
             for vc in &p.verifiable_credential {
-                let mut seen = std::collections::HashSet::new();
-                if !vc.credential_subject.0.keys().all(|k| seen.insert(vw::cvn(k))) {
-                    return None;
+                let mut seen: std::collections::HashMap<String, bool> = std::collections::HashMap::new();
+                for (k, v) in vc.credential_subject.0.iter() {
+                    let is_bool = matches!(v, CredentialAttributeValue::Bool(_));
+                    if let Some(prev_bool) = seen.insert(vw::cvn(k), is_bool) {
+                        collide = true;
+                        if prev_bool || is_bool {
+                            return None;
+                        }
+                    }
                 }
             }
             // a serde hop, so that the verifier sees what a remote verifier would see
-            let p2: W3CPresentation = serde_json::from_value(serde_json::to_value(&p).unwrap()).ok()?;
-            let out = vw::verify_w3c(&p2, &vreq, &bctx);
+            let pj = serde_json::to_value(&p).unwrap();
+            let p2: W3CPresentation = serde_json::from_value(pj.clone()).ok()?;
+            let mut out = vw::verify_w3c(&p2, &vreq, &bctx);
+            if collide {
+                for _ in 0..5 {
+                    let p3: W3CPresentation = serde_json::from_value(pj.clone()).ok()?;
+                    let o3 = vw::verify_w3c(&p3, &vreq, &bctx);
+                    if o3 == "accept" || (o3 == "panic" && out != "accept") {
+                        out = o3;
+                    }
+                }
+            }
             let base = base_req.map(|r| vw::verify_w3c(&p2, &r, &bctx) == "accept");
             let body = format!(
                 "V W {} {} {} {} {}",
